@@ -54,7 +54,7 @@ theorem allowed_broad_documented :
 
 -- non-vacuity: the table has broad render-time handlers of each sort
 example : (sites.filter fun s => broad s && renderTime s && reraises s).length ≥ 6 := by decide +kernel
-example : (sites.filter fun s => broad s && renderTime s && !reraises s).length = 5 := by decide +kernel
+example : (sites.filter fun s => broad s && renderTime s && !reraises s).length ≥ 3 := by decide +kernel
 example : (sites.filter fun s => renderTime s && !reraises s).length ≥ 40 := by decide +kernel
 
 /-! ### Part 2 — propagation -/
